@@ -127,6 +127,7 @@ func (g *Gen) call(fr *Frame, st *State, site ssa.Instruction, c *ssa.CallCommon
 		penv := g.bindParams(fr, st, fc, key, fn, sig, args, c.IsInvoke())
 		g.callSiteClauses(fr, st, site, c, key, ord, args, penv, sig, fn, r)
 		res := g.applyContract(fr, st, site, fc, key, ord, penv, resT, args, r)
+		g.callBinds(fr, st, site, c, key, penv, res)
 		if (fc.Assumed && (fn == nil || !g.isRepoPkg(pkgOfFn(fn)))) || (fn != nil && g.otherPackage(fr, fn)) {
 			g.externalErrorFacts(fr, st, res, resT)
 		}
@@ -1110,4 +1111,49 @@ func (g *Gen) otherPackage(fr *Frame, fn *ssa.Function) bool {
 	}
 	a, b := pkgOfFn(top.fn), pkgOfFn(fn)
 	return a != nil && b != nil && a != b
+}
+
+// callBinds: `call <callee> bind name = expr [when a == b]` clauses of the function under contract: snapshot a value in
+// the state right after this call (stored path-sensitively as the pseudo cell bind$name).
+func (g *Gen) callBinds(fr *Frame, st *State, site ssa.Instruction, c *ssa.CallCommon, key string, penv map[string]Val, res []Val) {
+	top := fr
+	for top.parent != nil {
+		top = top.parent
+	}
+	if top.fc == nil || len(top.fc.Binds) == 0 {
+		return
+	}
+	for _, cl := range top.fc.Binds {
+		if cl.Anchor != key {
+			continue
+		}
+		env := g.envFor(fr, st)
+		env.pos = site.Pos()
+		env.vars = map[string]Val{}
+		for k, v := range penv {
+			env.vars[k] = v
+		}
+		for i, rv := range res {
+			env.vars[fmt.Sprintf("ret%d", i)] = rv
+		}
+		if len(res) == 1 {
+			env.vars["ret"] = res[0]
+		}
+		if cl.When != nil {
+			if cl.When.Op != "bin" || cl.When.Name != "==" {
+				continue
+			}
+			a, err1 := g.eval(cl.When.Args[0], env)
+			b, err2 := g.eval(cl.When.Args[1], env)
+			if err1 != nil || err2 != nil || a.T != b.T {
+				continue // syntactic guard: not this call site
+			}
+		}
+		v, err := g.eval(cl.Expr, env)
+		if err != nil {
+			continue
+		}
+		g.seenCall[cl] = true
+		g.setCell(st, "bind$"+cl.Name, v)
+	}
 }
